@@ -38,6 +38,10 @@
 (*   raises       levels for which level_location raises                   *)
 (*   underT[z]    tile addresses whose tile_location lies below            *)
 (*                level_location(z)          (underJ[z]: non-tile files)   *)
+(*   probe        cleanup() asks level_location once before it decides    *)
+(*                for the directory walk, and a NotImplementedError means  *)
+(*                "no level directories"  (FALSE: it only tests callable)  *)
+(*   probeRaises  that question is answered by NotImplementedError         *)
 (*   hasBulk      callable(cache.remove_level_tiles_before)                *)
 (*   supportsTs   cache.supports_timestamp (what the configuration reads)  *)
 (*   storesTs     load_tile_metadata gives back the time of the store      *)
@@ -177,14 +181,16 @@ Configure(t) ==
   /\ free' = Free'
 
 \* cleanup(): which of the three procedures handles the task
-StrategyFor(tk) == IF tk.complete /\ bk.hasLevelLoc THEN "dir"
+LevelDirs == bk.hasLevelLoc /\ ~(bk.probe /\ bk.probeRaises)
+StrategyFor(tk) == IF tk.complete /\ LevelDirs THEN "dir"
                    ELSE IF tk.complete /\ bk.hasBulk THEN "bulk"
                    ELSE "walk"
 ChooseStrategy ==
   /\ pc = "choose"
   /\ strategy' = StrategyFor(task)
   /\ pc' = strategy'
-  /\ todo' = IF strategy' = "walk" THEN <<>> ELSE SortedSeq(task.levels)
+  \* cache_cleanup only logs the levels in a dry run: no backend call, no step
+  /\ todo' = IF strategy' = "walk" \/ (strategy' = "bulk" /\ task.dry) THEN <<>> ELSE SortedSeq(task.levels)
   /\ UNCHANGED <<bk, tiles, junk, task, before, junk0, free, visited, queue>>
 
 \* ---- directory walk ----------------------------------------------------
